@@ -92,6 +92,19 @@ def processTrivial (w : Worker) (seen : Nat → Option Item) (count : Nat) : Wor
 /-- number of placeholder entries -/
 def countPlace (ms : List Match) : Nat := (ms.filter (fun m => m.idx = PLACE)).length
 
+/-- scoring one newly published item: its match entry, or a placeholder if it does not match -/
+def scoreNewItem (p : Nat) (it : Item) (i : Nat) : Match :=
+  match score p it with
+  | some s => Match.mk s i
+  | none => Match.mk 0 PLACE
+
+/-- one new slot in `process_new_items`: unpublished → placeholder (and recorded as in flight); published and the cancel
+    flag seen → kept unscored; otherwise scored -/
+def scoreNewSlot (p : Nat) (o : Obs) (pubPos : Nat → Nat) (i : Nat) : Match :=
+  match o.seen1 i with
+  | none => Match.mk 0 PLACE
+  | some it => if o.sawCancel (pubPos i) then Match.mk 0 i else scoreNewItem score p it i
+
 /-- `process_new_items`; returns the worker and the `unmatched` counter -/
 def processNew (w : Worker) (o : Obs) : Worker × Nat :=
   -- in_flight.retain: published ones are scored and leave the list
@@ -102,27 +115,23 @@ def processNew (w : Worker) (o : Obs) : Worker × Nat :=
     let new := (List.range (o.count - w.lastSnapshot)).map (· + w.lastSnapshot)
     -- position of each new slot among the published ones (only those reach the cancel check)
     let pubPos : Nat → Nat := fun i => ((new.filter (fun j => j < i)).filter (fun j => (o.seen1 j).isSome)).length
-    let scored : List Match := new.map (fun i =>
-      match o.seen1 i with
-      | none => Match.mk 0 PLACE
-      | some it =>
-        if o.sawCancel (pubPos i) then Match.mk 0 i
-        else match score w.pattern it with
-          | some s => Match.mk s i
-          | none => Match.mk 0 PLACE)
+    let scored : List Match := new.map (scoreNewSlot score w.pattern o pubPos)
     ({ w with hits := ms1 ++ scored,
               inFlight := still ++ o.inFlightOrder (new.filter (fun i => (o.seen1 i).isNone)),
               lastSnapshot := o.count }, countPlace scored)
   else ({ w with hits := ms1, inFlight := still }, 0)
 
+/-- what the rescoring pass does to one entry when it is not interrupted: placeholders stay, a published item gets
+    its score under the worker's pattern, an item that no longer matches becomes a placeholder -/
+def rescoreOne (p : Nat) (seen : Nat → Option Item) (m : Match) : Match :=
+  if m.idx = PLACE then m
+  else match (seen m.idx).bind (score p) with
+    | some s => Match.mk s m.idx
+    | none => Match.mk 0 PLACE
+
 /-- the rescoring pass over the existing hits (`par_iter_mut().take_any_while(!canceled)`) -/
 def rescore (w : Worker) (o : Obs) : Worker × Nat :=
-  let rescored := w.hits.zipIdx.map (fun (m, pos) =>
-    if o.sawCancelRescore pos then m
-    else if m.idx = PLACE then m
-    else match (o.seen1 m.idx).bind (score w.pattern) with
-      | some s => Match.mk s m.idx
-      | none => Match.mk 0 PLACE)
+  let rescored := w.hits.zipIdx.map (fun x => if o.sawCancelRescore x.2 then x.1 else rescoreOne score w.pattern o.seen1 x.1)
   ({ w with hits := rescored }, countPlace rescored)
 
 /-- the comparison closure handed to `par_quicksort` -/
